@@ -49,7 +49,7 @@ func (l *LogSoftmax) Apply(inputs []tensor.Tensor) ([]tensor.Tensor, error) {
 		axis += nDims
 	}
 
-	out, err := tensor.LogSoftMax(inputs[0], axis)
+	out, err := softmaxAlongAxis(tensor.LogSoftMax, inputs[0], axis)
 	if err != nil {
 		return nil, err
 	}
